@@ -5,7 +5,7 @@
    for it.  Batches and scripts are ARBITRARY; run_batch is a structurally recursive total
    function (no fuel), which is the model-level statement of "the batch ends". *)
 From Coq Require Import String.
-From V Require Import C11_Spec C11_Proofs C11_ProcProofs C11_StartProofs.
+From V Require Import C11_Spec C11_Proofs C11_ProcProofs C11_StartProofs C11_PrinterProofs.
 Open Scope nat_scope.
 
 (* exactly one outcome for every case of the batch, none for anything else *)
@@ -193,6 +193,54 @@ Theorem unwoken_write_never : forall cap len sd sc how,
 Proof. exact unwoken_write_never_proof. Qed.
 Print Assumptions unwoken_write_never.
 
+(* ---- glue: the printer in front of the stderr parser, and the size limits handed across files ---- *)
+(* internal/printer.go, safePrinter.PrefixPrintf as a lock-step machine (Lock, write prefix ++ ": ",
+   write the formatted message, newline if missing, Unlock - one atomic step each): whatever the
+   goroutines' programs and under EVERY schedule, once all calls have returned the stream is the
+   concatenation of whole lines "prefix: message" of exactly the submitted calls (each once), and it
+   falls into exactly those lines when no prefix / message contains a newline *)
+Theorem printer_lines_atomic : forall progs sched,
+  let s := prun false sched (pinit progs) in
+  pfinished s = true ->
+  exists done, Permutation.Permutation done (concat progs) /\
+               ps_out s = concat (map line_of done) /\
+               (Forall clean (concat progs) -> lines_keep (ps_out s) = map line_of done ++ [[]]).
+Proof. exact printer_lines_atomic_proof. Qed.
+Print Assumptions printer_lines_atomic.
+
+(* ... so the runner's parser records (n, m) iff a SUBMITTED call's own line reads "n: m" with n in the
+   batch, and passes through exactly the submitted lines that are neither blank nor attributed:
+   feedback printed for one case is never attributed to another, under every schedule *)
+Theorem printer_feedback_attributed : forall progs sched batch,
+  let s := prun false sched (pinit progs) in
+  pfinished s = true -> Forall clean (concat progs) ->
+  (forall n m, In (n, m) (fst (parse_stderr batch (ps_out s))) <->
+               exists c, In c (concat progs) /\ side_of batch (line_of c) n m) /\
+  (forall l, In l (snd (parse_stderr batch (ps_out s))) <->
+             exists c, In c (concat progs) /\ l = line_of c /\ ~ blank l /\ ~ attributed batch l).
+Proof. exact printer_feedback_attributed_proof. Qed.
+Print Assumptions printer_feedback_attributed.
+
+(* the two response-size limits (regenerated from client_runner.go / server_runner.go): the server's
+   limit is the smaller one; each reader asks for the body iff the announced size is within ITS limit;
+   a server response announcing more than the server limit fails the start at the prefix - every case
+   a setup error, exactly once, whatever follows the prefix (also for sizes the client reader would
+   take); one within the limit that is delivered lets every case keep its own verdict *)
+Theorem limits_wired :
+  (c11_max_server_response < c11_max_client_response)%N /\
+  (forall size, asks_for_body RdServerResponse size = false <-> (c11_max_server_response < size)%N) /\
+  (forall size, asks_for_body RdClientOutput size = false <-> (c11_max_client_response < size)%N) /\
+  (forall size body tls cs i c, distinct cs -> well_named cs -> nth_error cs i = Some c ->
+     (c11_max_server_response < size)%N ->
+     asks_for_body RdServerResponse size = false /\
+     final (c_name c) (r_log (run_batch false (limit_server size body tls) cs)) = Some KSetup /\
+     count (c_name c) (r_log (run_batch false (limit_server size body tls) cs)) = 1) /\
+  (forall size tls cs i c, distinct cs -> well_named cs -> nth_error cs i = Some c ->
+     (size <= c11_max_server_response)%N -> (forall c', In c' cs -> c_send c' = true) ->
+     final (c_name c) (r_log (run_batch false (limit_server size true tls) cs)) = Some (verdict (c_ans c))).
+Proof. exact limits_wired_proof. Qed.
+Print Assumptions limits_wired.
+
 (* ---- non-vacuity ---- *)
 Definition cse (n : string) (ok : bool) (a : ans) (d : nat) : case := mkCase (bs n) ok a d (bs n) [].
 Arguments cse n%string ok a d.
@@ -337,4 +385,39 @@ Example code_plumbing_close_alive_refuted :
   start_fault_return repaired_plumbing (P5 5000 true) 65536 262200 0 10000 closes_stdin sigterm_child = Some 0%N /\
   start_fault_return code_plumbing (P5 5000 true) 65536 40 0 10000 (mkSc false false 2000 0 (Some RClose)) sigterm_child
     = Some 10000%N.
+Proof. vm_compute. repeat split; reflexivity. Qed.
+
+(* ---- the printer ---- *)
+Definition pcl (p m : string) : pcall := mkCall (bs p) (bs m).
+Arguments pcl p%string m%string.
+(* two goroutines, any of the 3 schedules below: whole lines; the parser attributes each to its own case *)
+Example ex_printer_interleaved :
+  ps_out (prun false [0; 1; 0; 1; 0; 1; 0; 1; 1; 1; 1] (pinit [[pcl "S/a" "x"]; [pcl "S/b" "y"]]))
+    = bs "S/a: x" ++ [10%N] ++ bs "S/b: y" ++ [10%N] /\
+  ps_out (prun false [1; 1; 0; 0; 1; 0; 1; 0; 0; 0; 0] (pinit [[pcl "S/a" "x"]; [pcl "S/b" "y"]]))
+    = bs "S/b: y" ++ [10%N] ++ bs "S/a: x" ++ [10%N] /\
+  fst (parse_stderr [bs "S/a"; bs "S/b"] (ps_out (prun false [1; 1; 0; 0; 1; 0; 1; 0; 0; 0; 0] (pinit [[pcl "S/a" "x"]; [pcl "S/b" "y"]]))))
+    = [(bs "S/b", bs "y"); (bs "S/a", bs "x")].
+Proof. vm_compute. repeat split; reflexivity. Qed.
+(* a test name with format verbs is copied verbatim *)
+Example ex_printer_percent :
+  line_of (pcl "S/100%d %s %%" "expected 1; got 2") = bs "S/100%d %s %%: expected 1; got 2" ++ [10%N] /\
+  clean (pcl "S/100%d %s %%" "expected 1; got 2").
+Proof. split; [vm_compute; reflexivity|]. split; vm_compute; intuition discriminate. Qed.
+(* seed C11-18: the variant that lets go of the mutex between prefix and message interleaves - the line
+   of S/b is attributed to S/a, the rest of S/a's line is passed through as ordinary output *)
+Example split_lock_refuted :
+  let s := prun true [0; 0; 1; 1; 1; 1; 1; 0; 0; 0] (pinit [[pcl "S/a" "x"]; [pcl "S/b" "y"]]) in
+  pfinished s = true /\ ps_out s = bs "S/a: S/b: y" ++ [10%N] ++ bs "x" ++ [10%N] /\
+  parse_stderr [bs "S/a"; bs "S/b"] (ps_out s) = ([(bs "S/a", bs "S/b: y")], [bs "x" ++ [10%N]]).
+Proof. vm_compute. repeat split; reflexivity. Qed.
+
+(* ---- the limits ---- *)
+(* the window between the two limits is inhabited: 2 MiB is refused by the server-response reader at the
+   prefix and taken by the client-output reader *)
+Example ex_limit_window :
+  asks_for_body RdServerResponse 2097152 = false /\ asks_for_body RdClientOutput 2097152 = true /\
+  asks_for_body RdServerResponse c11_max_server_response = true /\
+  asks_for_body RdServerResponse (c11_max_server_response + 1) = false /\
+  server_resp 2097152 true = RBad /\ server_resp 1048576 true = RValid true.
 Proof. vm_compute. repeat split; reflexivity. Qed.
